@@ -360,7 +360,8 @@ def run_shard(ctx):
             model_schema = schema
         else:
             gen = gen_dsl.Gen(rng, max_depth=2, defaults=0.0, share=0.1, renames=0.5, inheritance=0.3,
-                              pattern_overlap=0.4 if idx % 2 else 0.0)
+                              pattern_overlap=0.4 if idx % 2 else 0.0,
+                              vocabulary_class_names=0.5 if idx % 5 == 1 else 0.0)
             if idx % 4 == 2:
                 spec = gen.family(2, levels=rng.choice([2, 3]))
                 ctx.count("root_is_subclass")
